@@ -23,9 +23,20 @@ impl ContinuityStreamCache {
     pub fn try_read_last_seq(&self, id: &str) -> io::Result<Option<u64>> { match self.full_mode { 0 => Ok(None), 2 => Err(io::Error::new(io::ErrorKind::Other, "unreadable")), _ => Ok(self.full.borrow().iter().filter(|e| e.session_id == id).map(|e| e.seq).last()) } }
     pub fn try_read_last_seq_messages_runs_v1(&self, id: &str) -> io::Result<Option<u64>> { match self.mr_mode { 0 => Ok(None), 2 => Err(io::Error::new(io::ErrorKind::Other, "unreadable")), _ => Ok(self.full.borrow().iter().filter(|e| e.session_id == id && is_mr(e)).map(|e| e.seq).last()) } }
 }
+//@@ item crates/ripd/src/continuities.rs struct ContinuityRunLink
+//@@ item crates/ripd/src/continuities.rs struct ContextCompiledPayload
+//@@ item crates/ripd/src/continuities.rs struct ContextSelectionDecidedPayload
+//@@ item crates/ripd/src/continuities.rs struct ProviderCursorUpdatedPayload
+//@@ item crates/ripd/src/continuities.rs struct CompactionAutoScheduleDecidedPayload
+//@@ item crates/ripd/src/continuities.rs struct ToolSideEffects
+//@@ item crates/ripd/src/continuities.rs struct ContinuityMetaV1
+pub mod rip_kernel { pub use super::{ContextSelectionCompactionCheckpointV1, ContextSelectionResetV1}; }
+pub struct ContinuityIndexV1 { pub workspaces: HashMap<String, String>, pub continuities: HashMap<String, ContinuityMetaV1> }
+pub fn index_path(p: &std::path::PathBuf) -> std::path::PathBuf { p.clone() }
+pub fn save_index(_p: &std::path::PathBuf, _i: &ContinuityIndexV1) -> io::Result<()> { Ok(()) }
 //@@ item crates/ripd/src/continuities.rs struct JobEndedPayload
 //@@ item crates/ripd/src/continuities.rs struct CompactionCheckpointCreatedPayload
-pub struct ContinuityStore { pub event_log: EventLog, pub stream_cache: ContinuityStreamCache, pub sender: Sender, pub next_seq: Mutex<HashMap<String, u64>> }
+pub struct ContinuityStore { pub data_dir: std::path::PathBuf, pub index: Mutex<ContinuityIndexV1>, pub event_log: EventLog, pub stream_cache: ContinuityStreamCache, pub sender: Sender, pub next_seq: Mutex<HashMap<String, u64>> }
 impl ContinuityStore {
     pub fn replay_events(&self, id: &str) -> io::Result<Vec<Event>> { Ok(self.event_log.frames.borrow().iter().filter(|e| e.session_id == id).cloned().collect()) }
     //@@ fn crates/ripd/src/continuities.rs ContinuityStore::load_next_seq_for
@@ -42,7 +53,20 @@ impl ContinuityStore {
     //@@ end
     //@@ fn crates/ripd/src/continuities.rs ContinuityStore::append_compaction_checkpoint_created
     //@@ end
+    //@@ fn crates/ripd/src/continuities.rs ContinuityStore::append_context_selection_decided
+    //@@ end
+    //@@ fn crates/ripd/src/continuities.rs ContinuityStore::append_context_compiled
+    //@@ end
+    //@@ fn crates/ripd/src/continuities.rs ContinuityStore::append_provider_cursor_updated
+    //@@ end
+    //@@ fn crates/ripd/src/continuities.rs ContinuityStore::append_compaction_auto_schedule_decided
+    //@@ end
+    //@@ fn crates/ripd/src/continuities.rs ContinuityStore::append_tool_side_effects
+    //@@ end
+    //@@ fn crates/ripd/src/continuities.rs ContinuityStore::create_continuity
+    //@@ end
 }
+fn new_index() -> Mutex<ContinuityIndexV1> { Mutex::new(ContinuityIndexV1 { workspaces: HashMap::new(), continuities: HashMap::new() }) }
 const T: &str = "t";
 fn call(st: &ContinuityStore, op: u8) -> Result<String, String> {
     match op {
@@ -51,17 +75,22 @@ fn call(st: &ContinuityStore, op: u8) -> Result<String, String> {
         2 => st.append_run_ended(T, "m", "s", "done".into(), "u".into(), "o".into()),
         3 => st.append_job_spawned(T, "j", "k", None, "u".into(), "o".into()),
         4 => st.append_job_ended(T, JobEndedPayload { job_id: "j".into(), job_kind: "k".into(), status: "completed".into(), result: None, error: None, actor_id: "u".into(), origin: "o".into() }),
+        6 => st.append_context_selection_decided(T, ContextSelectionDecidedPayload { run_session_id: "s".into(), message_id: "m".into(), compiler_id: "c".into(), compiler_strategy: "s".into(), limits: Value { filler: 0 }, compaction_checkpoint: None, compaction_checkpoints: vec![], resets: vec![], reason: None, actor_id: "u".into(), origin: "o".into() }),
+        7 => st.append_context_compiled(T, ContextCompiledPayload { run_session_id: "s".into(), bundle_artifact_id: "b".into(), compiler_id: "c".into(), compiler_strategy: "s".into(), from_seq: 0, from_message_id: None, actor_id: "u".into(), origin: "o".into() }),
+        8 => st.append_provider_cursor_updated(T, ProviderCursorUpdatedPayload { provider: "p".into(), endpoint: None, model: None, cursor: None, action: "set".into(), reason: None, run_session_id: None, actor_id: "u".into(), origin: "o".into() }),
+        9 => st.append_compaction_auto_schedule_decided(T, CompactionAutoScheduleDecidedPayload { decision_id: "d".into(), policy_id: "p".into(), decision: "noop".into(), execute: false, stride_messages: 1, max_new_checkpoints: 1, block_on_inflight: true, message_count: 0, cut_rule_id: "r".into(), planned: vec![], job_id: None, job_kind: None, reason: None, actor_id: "u".into(), origin: "o".into() }),
+        10 => st.append_tool_side_effects(&ContinuityRunLink { continuity_id: T.into(), message_id: "m".into(), actor_id: "u".into(), origin: "o".into() }, "s", ToolSideEffects { tool_id: "t".into(), tool_name: "write".into(), affected_paths: None, checkpoint_id: None }),
         _ => st.append_compaction_checkpoint_created(T, CompactionCheckpointCreatedPayload { cut_rule_id: "r".into(), summary_kind: "k".into(), summary_artifact_id: "a".into(), from_seq: 0, from_message_id: None, to_seq: 0, to_message_id: None, actor_id: "u".into(), origin: "o".into() }),
     }
 }
-const NAMES: [&str; 6] = ["append_message", "append_run_spawned", "append_run_ended", "append_job_spawned", "append_job_ended", "append_compaction_checkpoint_created"];
+const NAMES: [&str; 11] = ["append_message", "append_run_spawned", "append_run_ended", "append_job_spawned", "append_job_ended", "append_compaction_checkpoint_created", "append_context_selection_decided", "append_context_compiled", "append_provider_cursor_updated", "append_compaction_auto_schedule_decided", "append_tool_side_effects"];
 
 fn main() {
     // history: creation frame + up to 3 earlier frames (each of the six kinds) written through the store itself; then a restart
     // (counter cache emptied) with every sidecar mode; then two more appends, the first of which may fail in the log
-    for n in 0..=3usize { for code in 0..6usize.pow(n as u32) { for full_mode in 0..3u8 { for mr_mode in 0..3u8 { for op1 in 0..6u8 { for fail1 in [false, true] { for op2 in [0u8, 3] {
+    for n in 0..=3usize { for code in 0..6usize.pow(n as u32) { for full_mode in 0..3u8 { for mr_mode in 0..3u8 { for op1 in 0..11u8 { for fail1 in [false, true] { for op2 in [0u8, 3] {
         let mut c = code; let hist: Vec<u8> = (0..n).map(|_| { let o = (c % 6) as u8; c /= 6; o }).collect();
-        let st = ContinuityStore { event_log: EventLog { frames: RefCell::new(vec![]), fail_next: RefCell::new(false) }, stream_cache: ContinuityStreamCache { full: RefCell::new(vec![]), full_mode: 1, mr_mode: 1 }, sender: Sender, next_seq: Mutex::new(HashMap::new()) };
+        let st = ContinuityStore { data_dir: std::path::PathBuf::new(), index: new_index(), event_log: EventLog { frames: RefCell::new(vec![]), fail_next: RefCell::new(false) }, stream_cache: ContinuityStreamCache { full: RefCell::new(vec![]), full_mode: 1, mr_mode: 1 }, sender: Sender, next_seq: Mutex::new(HashMap::new()) };
         let created = Event { id: "c0".into(), session_id: T.into(), timestamp_ms: 0, seq: 0, kind: EventKind::ContinuityCreated { workspace: "ws".into(), title: None } };
         st.event_log.append(&created).unwrap(); st.stream_cache.append_best_effort(&created);
         // another thread's frames share the log and the sidecar store
@@ -69,7 +98,7 @@ fn main() {
         st.event_log.append(&other).unwrap(); st.stream_cache.append_best_effort(&other);
         for h in &hist { call(&st, *h).unwrap(); }
         // restart
-        let st = ContinuityStore { event_log: st.event_log, stream_cache: ContinuityStreamCache { full: st.stream_cache.full, full_mode, mr_mode }, sender: Sender, next_seq: Mutex::new(HashMap::new()) };
+        let st = ContinuityStore { data_dir: std::path::PathBuf::new(), index: new_index(), event_log: st.event_log, stream_cache: ContinuityStreamCache { full: st.stream_cache.full, full_mode, mr_mode }, sender: Sender, next_seq: Mutex::new(HashMap::new()) };
         *st.event_log.fail_next.borrow_mut() = fail1;
         let r1 = call(&st, op1);
         let r2 = call(&st, op2);
@@ -86,4 +115,13 @@ fn main() {
             return;
         }
     } } } } } } }
+    // create_continuity: the new thread's creation frame is seq 0 and the next append to it is seq 1 (sequential use; the race F4a needs a schedule)
+    for fail in [false, true] { for op in [0u8, 3] {
+        let st = ContinuityStore { data_dir: std::path::PathBuf::new(), index: new_index(), event_log: EventLog { frames: RefCell::new(vec![]), fail_next: RefCell::new(fail) }, stream_cache: ContinuityStreamCache { full: RefCell::new(vec![]), full_mode: 1, mr_mode: 1 }, sender: Sender, next_seq: Mutex::new(HashMap::new()) };
+        let r = st.create_continuity("ws".into(), Some(T.into()), None, true);
+        if fail { if r.is_ok() || !st.event_log.frames.borrow().is_empty() { println!("WITNESS {{\"function\": \"ContinuityStore::create_continuity\", \"problem\": \"a failed creation reported success or left a frame\"}}"); return; } continue; }
+        call(&st, op).unwrap();
+        let seqs: Vec<u64> = st.event_log.frames.borrow().iter().filter(|e| e.session_id == T).map(|e| e.seq).collect();
+        if r.is_err() || seqs != vec![0, 1] { println!("WITNESS {{\"function\": \"ContinuityStore::create_continuity\", \"thread_frame_seqs\": {:?}, \"problem\": \"a new thread does not start at seq 0 followed by seq 1\"}}", seqs); return; }
+    } }
 }
